@@ -254,6 +254,66 @@ class C13(SeqProp):
                         return v
         return v
 
+    def scripted_parametrized(self):
+        """fixed histories in which the EOM mode changes AFTER the sequence became parametrized
+        (and the other way round): the refusals must follow the mode the recorded calls imply"""
+        from pulser import Register, Sequence
+
+        from harness import seqimpl
+
+        eomspec = dict(mod_bandwidth=40.0, custom_buffer_time=None, limiting_beam="RED", controlled_beams=["BLUE"],
+                       multiple_beam_control=True, max_limiting_amp=188.0, intermediate_detuning=4398.0)
+        chan = lambda i, kind, addr, e: dict(id=f"ch{i}", kind=kind, addressing=addr, clock_period=1, min_duration=1,  # noqa: E731
+                                             max_duration=10**8, mod_bandwidth=8.0, custom_phase_jump_time=None, max_amp=None,
+                                             max_abs_detuning=None, min_avg_amp=0, min_retarget_interval=0, fixed_retarget_t=0,
+                                             max_targets=None, **({"eom": dict(e)} if e else {}))
+        scripts = {
+            "variable-then-enable": [("delay_var", True), ("enable", True), ("add", False), ("target_local", None), ("add_eom", True),
+                                     ("disable", True), ("add", True), ("add_eom", False)],
+            "enable-then-variable-then-disable": [("enable", True), ("delay_var", True), ("add", False), ("disable", True), ("add", True),
+                                                  ("add_eom", False), ("enable", True), ("add", False)],
+            "enable-var-then-disable": [("enable_var", True), ("add", False), ("add_eom", True), ("disable", True), ("add", True)],
+            "concrete-control": [("enable", True), ("add", False), ("add_eom", True), ("disable", True), ("add", True), ("add_eom", False)],
+        }
+        v = []
+        for sname, script in scripts.items():
+            for local in (False, True):
+                with warnings.catch_warnings():
+                    warnings.simplefilter("ignore")
+                    dev = seqimpl.build_device(dict(channels=[chan(0, "Rydberg", "Local" if local else "Global", eomspec)], dmms=[],
+                                                    max_sequence_duration=None, reusable=False, slm=False))
+                    seq = Sequence(Register.square(2, 5, prefix="q"), dev)
+                    seq.declare_channel("a", "ch0", **({"initial_target": "q0"} if local else {}))
+                    x = seq.declare_variable("x", dtype=float)
+                    for step, (what, accept) in enumerate(script):
+                        if what == "target_local":
+                            if not local:
+                                continue
+                            accept = False  # in EOM mode at that point of the script
+                        calls = {
+                            "delay_var": lambda: seq.delay(100 + 0 * x, "a"),
+                            "enable": lambda: seq.enable_eom_mode("a", 1.0, 0.0, 0.0),
+                            "enable_var": lambda: seq.enable_eom_mode("a", 1.0 + 0 * x, 0.0, 0.0),
+                            "disable": lambda: seq.disable_eom_mode("a"),
+                            "add": lambda: seq.add(Pulse.ConstantPulse(100, 1.0, 0.0, 0.0), "a"),
+                            "add_eom": lambda: seq.add_eom_pulse("a", 100, 0.0),
+                            "target_local": lambda: seq.target("q1", "a"),
+                        }
+                        case = dict(scenario="parametrized-script", script=sname, local=local, step=step, call=what)
+                        try:
+                            calls[what]()
+                            ok = True
+                        except Exception as e:  # noqa: BLE001
+                            ok = False
+                            err = e
+                        if ok and not accept:
+                            v.append(Violation("accepted-in-wrong-mode:eom-typestate:parametrized-script",
+                                               f"{sname}: step {step} ({what}) accepted although the recorded calls put the channel {'in' if what in ('add', 'target_local') else 'out of'} EOM mode", case))
+                        if not ok and accept:
+                            v.append(Violation("refused-in-right-mode:eom-typestate:parametrized-script",
+                                               f"{sname}: step {step} ({what}) refused with {err!r}"[:300], case))
+        return v
+
     def replay(self, payload):
         case = payload.get("case") or {}
         if isinstance(case, dict) and "scenario" in case:
@@ -329,6 +389,7 @@ class C13(SeqProp):
                 except Exception as e:  # noqa: BLE001
                     v.append(Violation("inspection-refused-after-build", repr(e), case))
         v += self.parametrized_histories(tier, rng)
+        v += self.scripted_parametrized()
         # declared-once clauses while the sequence is parametrized (physical device)
         from pulser.devices import DigitalAnalogDevice
 
